@@ -1,6 +1,7 @@
 """Specs (pure JSON data) for gates / circuits / operators, builders turning specs into
 library objects at execution time, and seeded random spec generators."""
 import math
+import re
 
 import sympy
 
@@ -31,17 +32,27 @@ def sym(name):
     return sympy.Symbol(name)
 
 
+FUNCS = {"cos", "sin", "sqrt", "exp", "tan", "log"}
+_IDENT = re.compile(r"(?<![\w.])[A-Za-z_]\w*(?:\[[0-9]+\])?")
+
+
+def expr_names(text):
+    """Identifiers (incl. indexed ones such as x[3]) used as symbols in an expression text."""
+    return [n for n in dict.fromkeys(_IDENT.findall(text or "")) if n not in FUNCS]
+
+
 def build_expr(text, symbols=SYMBOLS):
+    """Every identifier in ``text`` (other than FUNCS) denotes a Symbol of that name - also names that sympy
+    would otherwise read as built-ins (beta, S, I, E, pi, N, O, Q ...)."""
+    symbols = list(dict.fromkeys(list(symbols) + expr_names(text)))
     loc = {}
-    for s in symbols:
-        if "[" in s:
-            base, idx = s[:-1].split("[")
-            loc.setdefault(base, {})[int(idx)] = sympy.Symbol(s)
-    for s in symbols:
-        if "[" not in s:
-            if s in loc and isinstance(loc[s], dict):
-                continue
-            loc[s] = sympy.Symbol(s)
+    for i, name in enumerate(n for n in symbols if "[" in n):
+        ph = f"idx{i}__placeholder"
+        text = re.sub(r"(?<![\w.])" + re.escape(name), ph, text)
+        loc[ph] = sympy.Symbol(name)
+    for name in symbols:
+        if "[" not in name:
+            loc[name] = sympy.Symbol(name)
     return sympy.sympify(text, locals=loc)
 
 
@@ -217,7 +228,8 @@ def has_wrapper(g, w):
     return False
 
 
-def rand_gate(r, max_arity=3, wrappers=0.3, depth=2, powexp=True, direct=0.2, **kw):
+def rand_gate(r, max_arity=3, wrappers=0.3, depth=2, powexp=True, direct=0.2, allow_exp=False,
+              pow_exponents=(2, 3, -1, 0, 1, -2), multi_pow=False, **kw):
     g = rand_base_gate(r, max_arity=min(max_arity, 3), **kw)
     d = 0
     while d < depth and r.random() < wrappers:
@@ -225,14 +237,16 @@ def rand_gate(r, max_arity=3, wrappers=0.3, depth=2, powexp=True, direct=0.2, **
         choices = ["dag"]
         if gate_arity(g) < max_arity:
             choices += ["ctrl", "ctrl"]
-        if powexp and not has_symbols(g) and not has_wrapper(g, "pow"):
+        if powexp and not has_symbols(g) and (multi_pow or not has_wrapper(g, "pow")):
             choices += ["pow"]
+        if allow_exp and not has_symbols(g):
+            choices += ["exp"]
         w = r.choice(choices)
         spec = {"w": w, "of": g}
         if w == "ctrl":
             spec["n"] = r.randint(1, max_arity - gate_arity(g))
         if w == "pow":
-            spec["x"] = r.choice([2, 3, -1, 0, 1, -2])
+            spec["x"] = r.choice(list(pow_exponents))
         if r.random() < direct:
             spec["direct"] = True
         g = spec
